@@ -64,6 +64,10 @@ func cfgsFor(p *HProg, r *prng.R, thorough bool) []BuildCfg {
 		}
 	}
 	add(BuildCfg{O: 2, LinkMods: true, LinkList: r.Bool()})
+	if p.SelfContained {
+		// the only configuration in which no LLVM optimisation runs at all (with linked modules the pipeline always runs)
+		add(BuildCfg{O: 0, LinkMods: false, LinkList: r.Bool()})
+	}
 	for len(out) < 4 {
 		add(all[r.Intn(len(all))])
 	}
@@ -222,7 +226,8 @@ func checkC11(tier string) int {
 	for i := 0; i < nGen; i++ {
 		gr := prng.Stream(seed, "c11", "gen", i)
 		// all optimisation levels run the same program, so the construct of the recorded -O 2 finding is avoided throughout
-		progs = append(progs, genOwnProgramOpt(gr, i, true, i%2 == 0))
+		// a third of the programs may contain one out-of-domain operation: "whether and which run-time error occurs"
+		progs = append(progs, genOwnProgramFull(gr, i, true, i%2 == 0, i%3 == 0))
 	}
 	type task struct {
 		p    *HProg
